@@ -126,6 +126,7 @@ impl Exec {
         let waker = Waker::from(t.flag.clone());
         let mut cx = Context::from_waker(&waker);
         self.polls += 1;
+        TRANSPORT_CALLS.with(|c| c.set(0));
         let fut = t.fut.as_mut().unwrap();
         match catch_unwind(AssertUnwindSafe(|| fut.as_mut().poll(&mut cx))) {
             Ok(Poll::Ready(())) => t.fut = None,
@@ -136,6 +137,21 @@ impl Exec {
                 std::mem::forget(t.fut.take());
             }
         }
+    }
+    /// the application drops the future of one of its pending operations
+    fn cancel_one(&mut self, rng: &mut Rng) -> Option<String> {
+        let c = self.unfinished(|k| matches!(k, Kind::Op(..)));
+        if c.is_empty() {
+            return None;
+        }
+        let i = c[rng.below(c.len() as u64) as usize];
+        let fut = self.tasks[i].fut.take();
+        let name = self.tasks[i].name.clone();
+        // dropping it may run destructors of the code under test
+        if let Err(e) = catch_unwind(AssertUnwindSafe(move || drop(fut))) {
+            self.tasks[i].panicked = Some(panic_text(e));
+        }
+        Some(name)
     }
     fn wake(&mut self, i: usize) {
         self.tasks[i].flag.0.store(true, Ordering::SeqCst);
@@ -168,8 +184,29 @@ impl Exec {
 
 #[derive(Clone, Copy, PartialEq, Eq, Debug)]
 enum FaultKind {
+    /// every operation fails from here on
     Error,
+    /// the same, reported as the end of the stream
     Eof,
+    /// half-broken: from here on sends and flushes fail, nothing is received any more
+    SendSide,
+    /// half-broken: from here on receiving fails, sends still go out
+    RecvSide,
+}
+
+thread_local! {
+    /// transport calls made by the task that is being polled (a poll that never returns shows here)
+    static TRANSPORT_CALLS: Cell<u64> = const { Cell::new(0) };
+}
+
+fn transport_call() {
+    TRANSPORT_CALLS.with(|c| {
+        c.set(c.get() + 1);
+        if c.get() > 300_000 {
+            c.set(0);
+            panic!("busy loop: one poll of a task made more than 300000 transport calls without returning");
+        }
+    });
 }
 
 #[derive(Debug, Clone, Copy, PartialEq, Eq)]
@@ -208,25 +245,48 @@ struct Tap {
     ops: Rc<Cell<u64>>,
     fault: Option<(u64, FaultKind)>,
     failed: bool,
+    send_broken: bool,
+    recv_broken: bool,
+    recv_silent: bool,
+    reported: bool,
+    /// the client has been told that its transport failed
+    told: Rc<Cell<bool>>,
 }
 
 impl Tap {
-    /// counts a completed transport operation; true if this one is the fault point
-    fn tick(&mut self) -> bool {
+    fn new(inner: Inner, cid: usize, log: Rc<RefCell<TapLog>>, ops: Rc<Cell<u64>>, fault: Option<(u64, FaultKind)>, told: Rc<Cell<bool>>) -> Self {
+        Tap { inner: Some(inner), cid, log, ops, fault, failed: false, send_broken: false, recv_broken: false, recv_silent: false, reported: false, told }
+    }
+    /// counts a completed transport operation and arms the fault when this is its point
+    fn tick(&mut self) {
         let n = self.ops.get();
         self.ops.set(n + 1);
-        match self.fault {
-            Some((k, _)) if k == n => {
+        if let Some((k, kind)) = self.fault {
+            if k == n {
                 self.failed = true;
-                true
+                match kind {
+                    FaultKind::Error | FaultKind::Eof => {
+                        // the transport is gone for good, the peer sees it closed
+                        self.inner = None;
+                        self.send_broken = true;
+                        self.recv_broken = true;
+                    }
+                    FaultKind::SendSide => {
+                        self.send_broken = true;
+                        self.recv_silent = true;
+                    }
+                    FaultKind::RecvSide => self.recv_broken = true,
+                }
             }
-            _ => false,
         }
     }
+    /// the client is told about the failure (logged the first time)
     fn fail(&mut self) -> TapError {
-        // an injected end of stream or error: the transport is gone for good, the peer sees it closed
-        self.inner = None;
-        self.log.borrow_mut().events.push((self.cid, Dir::Failed, Message::Shutdown(Shutdown)));
+        if !self.reported {
+            self.reported = true;
+            self.told.set(true);
+            self.log.borrow_mut().events.push((self.cid, Dir::Failed, Message::Shutdown(Shutdown)));
+        }
         TapError::Injected
     }
 }
@@ -236,7 +296,7 @@ macro_rules! with_inner {
         match $self.inner.as_mut() {
             Some(Inner::B($t)) => $e,
             Some(Inner::U($t)) => $e,
-            None => return Poll::Ready(Err(TapError::Injected)),
+            None => return Poll::Ready(Err($self.fail())),
         }
     };
 }
@@ -245,12 +305,20 @@ impl AsyncTransport for Tap {
     type Error = TapError;
 
     fn receive_poll(mut self: Pin<&mut Self>, cx: &mut Context) -> Poll<Result<Message, TapError>> {
+        transport_call();
         let this = &mut *self;
+        if this.recv_broken {
+            return Poll::Ready(Err(this.fail()));
+        }
+        if this.recv_silent {
+            return Poll::Pending;
+        }
         let r = with_inner!(this, t => Pin::new(t).receive_poll(cx));
         match r {
             Poll::Pending => Poll::Pending,
             Poll::Ready(Ok(m)) => {
-                if this.tick() {
+                this.tick();
+                if this.recv_broken {
                     return Poll::Ready(Err(this.fail()));
                 }
                 this.log.borrow_mut().events.push((this.cid, Dir::Received, m.clone()));
@@ -261,17 +329,26 @@ impl AsyncTransport for Tap {
     }
 
     fn send_poll_ready(mut self: Pin<&mut Self>, cx: &mut Context) -> Poll<Result<(), TapError>> {
+        transport_call();
         let this = &mut *self;
+        if this.send_broken {
+            return Poll::Ready(Err(this.fail()));
+        }
         let r = with_inner!(this, t => Pin::new(t).send_poll_ready(cx));
+        if r.is_pending() && std::env::var("SYS_DUMP2").is_ok() {
+            eprintln!("tap {} send_poll_ready pending (ops so far {})", this.cid, this.ops.get());
+        }
         r.map_err(|_| TapError::Disconnected)
     }
 
     fn send_start(mut self: Pin<&mut Self>, msg: Message) -> Result<(), TapError> {
+        transport_call();
         let this = &mut *self;
-        if this.inner.is_none() {
-            return Err(TapError::Injected);
+        if this.send_broken || this.inner.is_none() {
+            return Err(this.fail());
         }
-        if this.tick() {
+        this.tick();
+        if this.send_broken {
             return Err(this.fail());
         }
         this.log.borrow_mut().events.push((this.cid, Dir::Sent, msg.clone()));
@@ -282,17 +359,56 @@ impl AsyncTransport for Tap {
     }
 
     fn send_poll_flush(mut self: Pin<&mut Self>, cx: &mut Context) -> Poll<Result<(), TapError>> {
+        transport_call();
         let this = &mut *self;
+        if this.send_broken {
+            return Poll::Ready(Err(this.fail()));
+        }
         let r = with_inner!(this, t => Pin::new(t).send_poll_flush(cx));
         match r {
             Poll::Pending => Poll::Pending,
             Poll::Ready(r) => {
-                if this.tick() {
+                this.tick();
+                if this.send_broken {
                     return Poll::Ready(Err(this.fail()));
                 }
                 Poll::Ready(r.map_err(|_| TapError::Disconnected))
             }
         }
+    }
+}
+
+/// the broker's end of a client's transport: only watches (debugging aid)
+struct Watch<T> {
+    inner: T,
+    cid: usize,
+}
+
+impl<T: AsyncTransport + Unpin> AsyncTransport for Watch<T> {
+    type Error = T::Error;
+    fn receive_poll(mut self: Pin<&mut Self>, cx: &mut Context) -> Poll<Result<Message, T::Error>> {
+        let r = Pin::new(&mut self.inner).receive_poll(cx);
+        if std::env::var("SYS_DUMP2").is_ok() {
+            eprintln!("conn {} receive_poll -> {}", self.cid, match &r { Poll::Pending => "pending".to_string(), Poll::Ready(Ok(m)) => format!("{:?}", m.kind()), Poll::Ready(Err(_)) => "err".to_string() });
+        }
+        r
+    }
+    fn send_poll_ready(mut self: Pin<&mut Self>, cx: &mut Context) -> Poll<Result<(), T::Error>> {
+        let r = Pin::new(&mut self.inner).send_poll_ready(cx);
+        if r.is_pending() && std::env::var("SYS_DUMP2").is_ok() {
+            eprintln!("conn {} send_poll_ready pending", self.cid);
+        }
+        r
+    }
+    fn send_start(mut self: Pin<&mut Self>, msg: Message) -> Result<(), T::Error> {
+        Pin::new(&mut self.inner).send_start(msg)
+    }
+    fn send_poll_flush(mut self: Pin<&mut Self>, cx: &mut Context) -> Poll<Result<(), T::Error>> {
+        let r = Pin::new(&mut self.inner).send_poll_flush(cx);
+        if r.is_pending() && std::env::var("SYS_DUMP2").is_ok() {
+            eprintln!("conn {} send_poll_flush pending", self.cid);
+        }
+        r
     }
 }
 
@@ -335,12 +451,19 @@ struct ChanStat {
     bad_order: bool,
 }
 
+/// a proxy and what the application has subscribed it to (as far as completed operations say)
+struct PInfo {
+    proxy: Proxy,
+    subs: std::collections::BTreeSet<u32>,
+    all: bool,
+}
+
 #[derive(Default)]
 struct App {
     handle: Option<Handle>,
     objects: Vec<Object>,
     services: Vec<SvcCtl>,
-    proxies: Vec<Proxy>,
+    proxies: Vec<PInfo>,
     psenders: Vec<PendingSender>,
     preceivers: Vec<PendingReceiver>,
     usenders: Vec<UnclaimedSender>,
@@ -355,6 +478,26 @@ struct App {
     check_calls: bool,
 }
 
+/// a channel end taken from the pool: it goes back unless the claim came to a decision (an application that
+/// abandons a claim it never got to make still knows the cookie)
+struct CookieGuard {
+    cookie: Option<ChannelCookie>,
+    sender: bool,
+    shared: SharedRc,
+}
+impl Drop for CookieGuard {
+    fn drop(&mut self) {
+        if let Some(ck) = self.cookie.take() {
+            if std::env::var("SYS_DUMP").is_ok() {
+                eprintln!("guard returns {:?}", ck);
+            }
+            if let Ok(mut sh) = self.shared.try_borrow_mut() {
+                if self.sender { sh.unbound_senders.push(ck) } else { sh.unbound_receivers.push(ck) }
+            }
+        }
+    }
+}
+
 /// what applications tell each other outside the bus
 #[derive(Default)]
 struct Shared {
@@ -365,6 +508,15 @@ struct Shared {
     next_token: u32,
     /// mode A: ids invented by the harness
     invented_services: Vec<ServiceId>,
+}
+
+impl App {
+    /// holds nothing that keeps a client or a peer waiting
+    fn is_empty(&self) -> bool {
+        self.handle.is_none() && self.objects.is_empty() && self.services.is_empty() && self.proxies.is_empty() && self.psenders.is_empty()
+            && self.preceivers.is_empty() && self.usenders.is_empty() && self.ureceivers.is_empty() && self.senders.is_empty()
+            && self.receivers.is_empty() && self.listeners.is_empty()
+    }
 }
 
 type AppRc = Rc<RefCell<App>>;
@@ -668,7 +820,7 @@ fn start_op(op: Op, cid: usize, app: &AppRc, shared: &SharedRc, spawner: &Spawne
             let r = Proxy::new(&handle, id).await;
             record(&a, &nm, res_name(&r));
             if let Ok(p) = r {
-                a.borrow_mut().proxies.push(p);
+                a.borrow_mut().proxies.push(PInfo { proxy: p, subs: Default::default(), all: false });
             }
         })),
         Op::DropProxy(i) => {
@@ -682,7 +834,7 @@ fn start_op(op: Op, cid: usize, app: &AppRc, shared: &SharedRc, spawner: &Spawne
                 s.next_token += 1;
                 s.next_token
             };
-            let pending = app.borrow().proxies[i].call(f, tok, None);
+            let pending = app.borrow().proxies[i].proxy.call(f, tok, None);
             if abort {
                 pending.abort();
                 record(app, &nm, "aborted-by-caller".into());
@@ -723,20 +875,26 @@ fn start_op(op: Op, cid: usize, app: &AppRc, shared: &SharedRc, spawner: &Spawne
             }
         }
         Op::Subscribe(i, ev) | Op::Unsubscribe(i, ev) => {
-            let p = app.borrow_mut().proxies.remove(i);
+            let mut p = app.borrow_mut().proxies.remove(i);
             let sub = matches!(op, Op::Subscribe(..));
             spawn(Box::pin(async move {
-                let r = if sub { p.subscribe(ev).await } else { p.unsubscribe(ev).await };
+                let r = if sub { p.proxy.subscribe(ev).await } else { p.proxy.unsubscribe(ev).await };
                 record(&a, &nm, res_name(&r));
+                if r.is_ok() {
+                    if sub { p.subs.insert(ev); } else { p.subs.remove(&ev); }
+                }
                 a.borrow_mut().proxies.push(p);
             }))
         }
         Op::SubscribeAll(i) | Op::UnsubscribeAll(i) => {
-            let p = app.borrow_mut().proxies.remove(i);
+            let mut p = app.borrow_mut().proxies.remove(i);
             let sub = matches!(op, Op::SubscribeAll(..));
             spawn(Box::pin(async move {
-                let r = if sub { p.subscribe_all().await } else { p.unsubscribe_all().await };
+                let r = if sub { p.proxy.subscribe_all().await } else { p.proxy.unsubscribe_all().await };
                 record(&a, &nm, res_name(&r));
+                if r.is_ok() {
+                    if sub { p.all = true; } else { p.all = false; p.subs.clear(); }
+                }
                 a.borrow_mut().proxies.push(p);
             }))
         }
@@ -745,7 +903,7 @@ fn start_op(op: Op, cid: usize, app: &AppRc, shared: &SharedRc, spawner: &Spawne
             let mut cx = Context::from_waker(&waker);
             let mut k = 0;
             let mut app = app.borrow_mut();
-            while let Poll::Ready(Some(_)) = app.proxies[i].poll_next_event(&mut cx) {
+            while let Poll::Ready(Some(_)) = app.proxies[i].proxy.poll_next_event(&mut cx) {
                 k += 1;
             }
             app.results.push((nm, format!("{}", k.min(3))));
@@ -777,31 +935,50 @@ fn start_op(op: Op, cid: usize, app: &AppRc, shared: &SharedRc, spawner: &Spawne
         }
         Op::ShareUnclaimedReceiver(i) => {
             let r = app.borrow_mut().ureceivers.remove(i);
-            shared.borrow_mut().unbound_receivers.push(r.unbind().cookie());
+            let ck = r.unbind().cookie();
+            if std::env::var("SYS_DUMP").is_ok() {
+                eprintln!("c{} shares receiver {:?}", cid, ck);
+            }
+            shared.borrow_mut().unbound_receivers.push(ck);
             record(app, &nm, "-".into());
         }
         Op::ClaimSharedSender(i) => {
             let ck = shared.borrow_mut().unbound_senders.remove(i);
+            // made here, not in the task: a task dropped before its first poll must give the cookie back too
+            let guard = CookieGuard { cookie: Some(ck), sender: true, shared: sh.clone() };
             spawn(Box::pin(async move {
+                // the whole guard moves into the task (naming only its field would capture a copy of the field)
+                let mut guard = guard;
                 let r = UnboundSender::new(ck).claim(handle).await;
                 record(&a, &nm, res_name(&r));
                 match r {
-                    Ok(s) => a.borrow_mut().senders.push(s),
-                    // the client was gone before it could ask: the end is still up for grabs
-                    Err(Error::Shutdown) => sh.borrow_mut().unbound_senders.push(ck),
-                    Err(_) => {}
+                    Ok(s) => {
+                        guard.cookie = None;
+                        a.borrow_mut().senders.push(s)
+                    }
+                    // the client was gone before it could ask: the end is still up for grabs (the guard returns it)
+                    Err(Error::Shutdown) => {}
+                    Err(_) => guard.cookie = None,
                 }
             }))
         }
         Op::ClaimSharedReceiver(i, cap) => {
             let ck = shared.borrow_mut().unbound_receivers.remove(i);
+            if std::env::var("SYS_DUMP").is_ok() {
+                eprintln!("c{} takes receiver {:?}", cid, ck);
+            }
+            let guard = CookieGuard { cookie: Some(ck), sender: false, shared: sh.clone() };
             spawn(Box::pin(async move {
+                let mut guard = guard;
                 let r = UnboundReceiver::new(ck).claim(handle, cap).await;
                 record(&a, &nm, res_name(&r));
                 match r {
-                    Ok(r) => a.borrow_mut().receivers.push(r),
-                    Err(Error::Shutdown) => sh.borrow_mut().unbound_receivers.push(ck),
-                    Err(_) => {}
+                    Ok(r) => {
+                        guard.cookie = None;
+                        a.borrow_mut().receivers.push(r)
+                    }
+                    Err(Error::Shutdown) => {}
+                    Err(_) => guard.cookie = None,
                 }
             }))
         }
@@ -902,6 +1079,9 @@ fn start_op(op: Op, cid: usize, app: &AppRc, shared: &SharedRc, spawner: &Spawne
         }
         Op::NextItem(i) => {
             let mut r = app.borrow_mut().receivers.remove(i);
+            if std::env::var("SYS_DUMP").is_ok() {
+                eprintln!("NextItem c{} on {:?}", cid, r.cookie());
+            }
             spawn(Box::pin(async move {
                 let ck = r.cookie();
                 let item = r.next_item::<u64>().await;
@@ -1246,7 +1426,11 @@ impl FakeBroker {
                 _ => UnsubscribeAllEventsResult::Ok,
             } }.into(),
             PendingReq::CreateChannel(serial, end) => {
-                let c = if !self.channels.is_empty() && rng.below(12) == 0 { self.channels[0] } else {
+                // now and then a cookie the client already holds *for the same end* (it must notice the duplicate); a
+                // cookie of the other end's map would make one cookie name two channels, which no transport-level
+                // view of the client can follow
+                let same: Vec<Uuid> = self.ends.iter().filter(|(_, e, _)| *e == end).map(|(c, _, _)| *c).collect();
+                let c = if !same.is_empty() && rng.below(12) == 0 { same[0] } else {
                     let c = self.fresh();
                     self.channels.push(c);
                     self.ends.push((c, end, false));
@@ -1453,7 +1637,7 @@ fn scenario_a(out: &mut Out, seed: u64) {
     let log = Rc::new(RefCell::new(TapLog { events: vec![] }));
     let (t_client, t_broker) = channel::unbounded();
     let mut broker_end = Box::pin(t_broker);
-    let tap = Tap { inner: Some(Inner::U(t_client)), cid: 0, log: log.clone(), ops: Rc::new(Cell::new(0)), fault: None, failed: false };
+    let tap = Tap::new(Inner::U(t_client), 0, log.clone(), Rc::new(Cell::new(0)), None, Rc::new(Cell::new(false)));
     let version = [14u32, 15, 16, 17, 18, 19, 20, 20, 20][rng.below(9) as usize];
     let app: AppRc = Rc::new(RefCell::new(App::default()));
     let shared: SharedRc = Rc::new(RefCell::new(Shared::default()));
@@ -1529,6 +1713,16 @@ fn scenario_a(out: &mut Out, seed: u64) {
     for _ in 0..steps {
         if dead.is_some() || stopping {
             break;
+        }
+        if rng.below(25) == 0 {
+            // the application loses interest in one of its pending operations
+            if let Some(n) = ex.cancel_one(&mut rng) {
+                trace.push(format!("cancel {}", n));
+                out.count("A.cancelled");
+                ex.settle(&mut rng, true);
+                drain_sent!();
+            }
+            continue;
         }
         let r = rng.below(10);
         if r < 5 || (fb.pending.is_empty() && r < 8) {
@@ -1610,6 +1804,22 @@ fn scenario_a(out: &mut Out, seed: u64) {
         }
         ex.settle(&mut rng, true);
         drain_sent!();
+        // the application gives up on what it was still waiting for (a call, a claim, ...) while the client waits
+        // for the broker's Shutdown
+        if result.borrow().is_none() && rng.below(2) == 0 {
+            for _ in 0..3 {
+                if let Some(n) = ex.cancel_one(&mut rng) {
+                    trace.push(format!("cancel {}", n));
+                    out.count("A.cancelled-while-stopping");
+                }
+            }
+            ex.settle(&mut rng, true);
+            drain_sent!();
+            if let Some((n, p)) = ex.panics().into_iter().next() {
+                out.fail("C15", &format!("task {} panicked: {}", n, p), &ctx(&trace));
+                return;
+            }
+        }
         // the client says Shutdown and waits for the broker's; what else arrives is not looked at
         if result.borrow().is_none() {
             for _ in 0..rng.below(4) {
@@ -1656,9 +1866,12 @@ fn scenario_a(out: &mut Out, seed: u64) {
     } else {
         out.count("A.end.dead");
     }
-    for _ in 0..4 {
+    for _ in 0..200 {
         drop_all(&app, &mut rng);
         ex.settle(&mut rng, true);
+        if app.borrow().is_empty() {
+            break;
+        }
     }
     if dead.as_deref() != Some("panic") {
         let stuck = ex.unfinished(|k| matches!(k, Kind::Op(..) | Kind::Service(_)));
@@ -1718,7 +1931,7 @@ fn scenario_b(out: &mut Out, seed: u64, with_fault: bool) {
             1 => Cause::HandlesDropped,
             2 => Cause::BrokerShutdown,
             3 => Cause::ConnShutdown,
-            _ => Cause::Fault(rng.below(70), if rng.below(2) == 0 { FaultKind::Error } else { FaultKind::Eof }),
+            _ => Cause::Fault(rng.below(70), *rng.pick(&[FaultKind::Error, FaultKind::Eof, FaultKind::Error, FaultKind::SendSide, FaultKind::SendSide, FaultKind::RecvSide])),
         })
     } else {
         None
@@ -1731,6 +1944,7 @@ fn scenario_b(out: &mut Out, seed: u64, with_fault: bool) {
     let mut client_tasks = vec![];
     let mut conn_tasks = vec![];
     let mut op_counters = vec![];
+    let told: Vec<Rc<Cell<bool>>> = (0..4).map(|_| Rc::new(Cell::new(false))).collect();
     for i in 0..n {
         let size = match rng.below(4) {
             0 => 0,
@@ -1752,7 +1966,7 @@ fn scenario_b(out: &mut Out, seed: u64, with_fault: bool) {
         let conn_handle = Rc::new(RefCell::new(None));
         macro_rules! wire {
             ($tc:expr, $tb:expr, $mk:expr) => {{
-                let tap = Tap { inner: Some($mk($tc)), cid: i, log: log.clone(), ops, fault, failed: false };
+                let tap = Tap::new($mk($tc), i, log.clone(), ops, fault, told[i].clone());
                 let app2 = app.clone();
                 let result2 = result.clone();
                 client_tasks.push(ex.spawn(format!("client {}", i), Kind::Client(i), async move {
@@ -1768,7 +1982,7 @@ fn scenario_b(out: &mut Out, seed: u64, with_fault: bool) {
                 let mut bh2 = bh.clone();
                 let cr = conn_result.clone();
                 let chh = conn_handle.clone();
-                let tb = $tb;
+                let tb = Watch { inner: $tb, cid: i };
                 conn_tasks.push(ex.spawn(format!("conn {}", i), Kind::Conn(i), async move {
                     match bh2.connect(tb).await {
                         Ok(conn) => {
@@ -1843,13 +2057,20 @@ fn scenario_b(out: &mut Out, seed: u64, with_fault: bool) {
             trace.push(format!("@{} cause applied", step));
             stopped = true;
         }
+        if rng.below(40) == 0 {
+            if let Some(nm) = ex.cancel_one(&mut rng) {
+                trace.push(format!("@{} cancel {}", step, nm));
+                out.count(&format!("{}.cancelled", tag));
+            }
+            continue;
+        }
         let r = rng.below(10);
         if r < 3 {
             let c = rng.below(n as u64) as usize;
             if apps[c].borrow().handle.is_some() {
                 let op = choose_op(&mut rng, &apps[c].borrow(), &shared.borrow(), false);
-                // explicit shutdown of a client that is not the victim is left to the final phase
-                if matches!(op, Op::Shutdown) {
+                // a client that stops on its own in the middle of things: only in the termination scenarios
+                if matches!(op, Op::Shutdown) && (!with_fault || rng.below(3) != 0) {
                     continue;
                 }
                 trace.push(format!("@{} c{} {:?}", step, c, op).chars().take(90).collect());
@@ -1869,7 +2090,12 @@ fn scenario_b(out: &mut Out, seed: u64, with_fault: bool) {
                 return;
             }
             // quiescent: whatever only waits for the broker is complete
-            let stuck = ex.unfinished(|k| matches!(k, Kind::Op(_, true)));
+            // a victim whose connection has gone silent (sends will fail, nothing arrives) has not been told yet
+            let silent = match (victim, cause) {
+                (Some(v), Some(Cause::Fault(_, FaultKind::SendSide))) if results[v].borrow().is_none() => Some(v),
+                _ => None,
+            };
+            let stuck = ex.unfinished(|k| matches!(k, Kind::Op(c, true) if Some(c) != silent));
             if !stuck.is_empty() {
                 let names: Vec<String> = stuck.iter().map(|&i| ex.tasks[i].name.clone()).collect();
                 out.fail(if with_fault { "C15" } else { "C06" }, &format!("the system is quiescent but operations [{}], which only wait for the broker, are not complete", names.join(", ")), &ctx(&trace));
@@ -1881,6 +2107,90 @@ fn scenario_b(out: &mut Out, seed: u64, with_fault: bool) {
     if !ex.settle(&mut rng, true) {
         out.fail("C06", "the executor did not become quiescent", &ctx(&trace));
         return;
+    }
+    // every live service emits one event of each kind; every proxy subscribed to it must get it
+    if !with_fault {
+        // first a few more subscriptions and unsubscriptions, so that services have several subscribers
+        for c in 0..n {
+            for _ in 0..3 {
+                let np = apps[c].borrow().proxies.len();
+                if np == 0 || apps[c].borrow().handle.is_none() {
+                    break;
+                }
+                let i = rng.below(np as u64) as usize;
+                let op = match rng.below(5) {
+                    0 => Op::Unsubscribe(i, rng.below(3) as u32),
+                    1 => Op::SubscribeAll(i),
+                    _ => Op::Subscribe(i, rng.below(3) as u32),
+                };
+                trace.push(format!("probe-round c{} {:?}", c, op));
+                start_op(op, c, &apps[c], &shared, &ex.spawner.clone());
+                if !ex.settle(&mut rng, true) {
+                    out.fail("C06", "the executor did not become quiescent", &ctx(&trace));
+                    return;
+                }
+            }
+        }
+        let mut probes: Vec<(ServiceCookie, u32, u32)> = vec![];
+        for app in apps.iter() {
+            let app = app.borrow();
+            for ctl in app.services.iter().filter(|c| !c.gone.get()) {
+                for ev in 0..3u32 {
+                    let tok = {
+                        let mut sh = shared.borrow_mut();
+                        sh.next_token += 1;
+                        sh.next_token
+                    };
+                    ctl.tell(SvcCmd::Emit(ev, tok));
+                    probes.push((ctl.id.cookie, ev, tok));
+                }
+            }
+        }
+        if !ex.settle(&mut rng, true) {
+            out.fail("C06", "the executor did not become quiescent", &ctx(&trace));
+            return;
+        }
+        let waker = Waker::noop();
+        let mut cx = Context::from_waker(&waker);
+        for (ci, app) in apps.iter().enumerate() {
+            if !alive(ci, &results) {
+                continue;
+            }
+            let mut app = app.borrow_mut();
+            for p in app.proxies.iter_mut() {
+                let mut got: Vec<(u32, u32)> = vec![];
+                let mut finished = false;
+                loop {
+                    match p.proxy.poll_next_event(&mut cx) {
+                        Poll::Ready(Some(ev)) => {
+                            if let Ok(tok) = ev.deserialize::<u32>() {
+                                got.push((ev.id(), tok));
+                            }
+                        }
+                        Poll::Ready(None) => {
+                            finished = true;
+                            break;
+                        }
+                        Poll::Pending => break,
+                    }
+                }
+                if finished {
+                    continue;
+                }
+                let ck = p.proxy.id().cookie;
+                for (svc, ev, tok) in probes.iter().filter(|(s, _, _)| *s == ck) {
+                    let _ = svc;
+                    let wanted = p.all || p.subs.contains(ev);
+                    let has = got.contains(&(*ev, *tok));
+                    if wanted && !has {
+                        out.fail("C06", &format!("client {}: a proxy subscribed to event {} of a live service did not get the event its owner emitted (token {})", ci, ev, tok), &ctx(&trace));
+                    }
+                    if wanted {
+                        out.count("B.probe-events-delivered");
+                    }
+                }
+            }
+        }
     }
     // operations started on a client that has stopped complete at once
     if let Some(v) = victim {
@@ -1937,10 +2247,13 @@ fn scenario_b(out: &mut Out, seed: u64, with_fault: bool) {
         }
     }
     // operations that complete now hand their objects back to the application, which drops them as well
-    for _ in 0..4 {
+    for _ in 0..200 {
         if !ex.settle(&mut rng, true) {
             out.fail("C06", "the executor did not become quiescent at the end", &ctx(&trace));
             return;
+        }
+        if apps.iter().all(|a| a.borrow().is_empty()) {
+            break;
         }
         for a in apps.iter() {
             drop_all(a, &mut rng);
@@ -1951,6 +2264,13 @@ fn scenario_b(out: &mut Out, seed: u64, with_fault: bool) {
         return;
     }
     let prop = if with_fault { "C15" } else { "C06" };
+    if let (Some(v), Some(Cause::Fault(_, FaultKind::SendSide))) = (victim, cause) {
+        if results[v].borrow().is_none() && !told[v].get() {
+            // the connection went silent while the client had nothing left to send: it cannot know, and waits
+            out.count("F.silent-fault-never-observed");
+            return;
+        }
+    }
     for i in 0..n {
         let r = results[i].borrow().clone();
         let expect_err = matches!((victim, cause), (Some(v), Some(Cause::Fault(..))) if v == i);
@@ -2037,6 +2357,9 @@ fn scenario_b(out: &mut Out, seed: u64, with_fault: bool) {
         }
         for (i, r) in results.iter().enumerate() {
             eprintln!("client {} result {:?} conn {:?}", i, r.borrow(), conn_results[i].borrow());
+        }
+        for t in ex.tasks.iter().filter(|t| t.fut.is_some()) {
+            eprintln!("unfinished task {} ({:?})", t.name, t.kind);
         }
     }
     let mut started = vec![false; n];
